@@ -954,6 +954,10 @@ def m_map_keys(I, state, frame, bi, t, args, span):
 @model("std::collections::HashSet::<T, S, A>::iter", "std::collections::HashSet::<T, S, A>::intersection",
        "std::collections::HashSet::<T, S, A>::drain")
 def m_set_iter(I, state, frame, bi, t, args, span):
+    sf_ = self_field_of(I, args[0])
+    if sf_ is not None:
+        # a report that walks a set the evaluator maintains (instead of scanning the job states)
+        I.rec.put("iter_field", I.sitekey(frame, bi, -1), dict(fn=frame.body.name, bb=bi, span=span, field=sf_, stack=frame.stack))
     v = deref(I, state, args[0])
     if v[0] == "coll":
         return [(("iter", ("av", v[1])), state)]
